@@ -2,9 +2,9 @@ SPECIFICATION Spec
 CONSTANTS
   Kind = "rr"
   Threads = {1, 2, 3}
-  MaxCalls = 7
-  Chunks = {0, 1, 2, 3}
-  Ns = {1, 2, 3}
+  MaxCalls = 4
+  Chunks = {1, 2}
+  Ns = {2, 3}
   Sizes = {0}
   NChange = FALSE
 INVARIANTS Offered_Inv RR_Runs RR_Even Judge_Accepts
